@@ -145,6 +145,40 @@ def legacy_format(ctx, r):
         st.close()
 
 
+def torn_claim_compact(ctx):
+    """a `claim` killed inside its write — the claim line whole, the state line cut — on a task that never had a state event and on one that went
+    blocked → todo before (compact then re-emits its state): readers show a todo task with a claimant, and after compact they must show the same"""
+    for history in ("fresh", "was blocked", "was doing"):
+        st = cmdrun.Store(ctx.ergo, ctx.go)
+        trace = []
+        try:
+            def ex(argv, stdin=None):
+                res = st.exec(argv, stdin); trace.append({"argv": argv, "stdin": None if stdin is None else stdin.decode(), "exit": res["exit"]}); return res
+            t = json.loads(ex(["--json", "new", "task"], b'{"title":"half claimed"}')["stdout"])["id"]
+            ex(["--json", "new", "task"], b'{"title":"another"}')
+            if history == "was blocked":
+                ex(["--json", "set", t], b'{"state":"blocked"}'); ex(["--json", "set", t], b'{"state":"todo"}')
+            if history == "was doing":
+                ex(["--json", "--agent", "first", "claim", t]); ex(["--json", "--agent", "first", "set", t], b'{"state":"todo"}')
+            ts = "2031-01-01T00:00:00Z"
+            blob = json.dumps({"type": "claim", "ts": ts, "data": {"id": t, "agent_id": "cut-short", "ts": ts}}, separators=(",", ":")) + "\n" + '{"type":"state","ts":"%s","data":{"id":"%s","sta' % (ts, t)
+            with open(st.log_path(), "ab") as f:
+                f.write(blob.encode())
+            trace.append({"edit": "lines appended to the log: a claim of %s whose write was cut inside the state line that follows (no newline)" % t, "bytes": blob})
+            before = st.graph()
+            res = ex(["--json", "compact"])
+            after = st.graph()
+            ctx.count(1, key=("torn-claim-compact", history))
+            if res["exit"] != 0 or "err" in after or "err" in before:
+                ctx.violation("C05 compact failed", "compact exited %s: %s" % (res["exit"], res["stderr"][:200]), {"trace": trace}); return
+            if oracles.obs_graph(before["graph"]) != oracles.obs_graph(after["graph"]):
+                ctx.violation("C05 compact changed an observable", "half-written claim (%s): %s" % (history, fndiff.first_difference(oracles.obs_graph(before["graph"]), oracles.obs_graph(after["graph"]))), {"trace": trace}); return
+            if oracles.ready_order(before["graph"]) != oracles.ready_order(after["graph"]):
+                ctx.violation("C05 compact changed the claim order", "half-written claim (%s)" % history, {"trace": trace}); return
+        finally:
+            st.close()
+
+
 def run(ctx):
     res = fndiff.run_stream(ctx.ev, ["fn-replay", str(ctx.seed + 500), "2000" if ctx.quick else "30000"])
     ctx.tie("T2-fn replay/compactEvents", cases=res["cases"], classes=res["classes"], disagreements=len(res["diffs"]))
@@ -155,6 +189,7 @@ def run(ctx):
     n = 14 if ctx.quick else 250
     for h in range(n):
         twin_history(ctx, r.fork(), 40, legacy=(h % 5 == 4), torn=(h % 3 == 2))
+    torn_claim_compact(ctx)
     for i in range(4 if ctx.quick else 60):
         legacy_format(ctx, r.fork())
     # compact against a concurrent writer: what it writes must be the collapse of the log as it is *under its lock* — a writer that commits
